@@ -9,6 +9,7 @@ PROP = 'C10'
 LEAN_MODULES = ['BR.Props.C10', 'BR.Props.C10Rev']
 THEOREMS = ['BR.C10.coh_ikP', 'BR.C10.op_coherent', 'BR.C10.history_coherent', 'BR.C10.validate_sound', 'BR.C10.validateDN_sound',
             'BR.C10.op_verdict_sound', 'BR.C10.inverseJacobian_restores',
+            'BR.C10.fkAt_coh', 'BR.C10.fkAt_sound',
             'BR.C10R.validate_noop', 'BR.C10R.allHold_rigid', 'BR.C10R.fkReverse_sound', 'BR.C10R.fk_reverse_sound']
 TIE = ('The platform is modelled as a state machine in lean/BR/Model/SP.lean (IK helper, validate chain with its corrective actions and re-validation, both FK paths, '
        'reverse FK, move, spinCustom, inverseJacobian, randomPos); the outputs of the numeric solvers (SPFKinSpaceR, scipy fsolve) are recorded from the real run and fed to the model as oracle inputs. '
@@ -19,11 +20,11 @@ TRUSTED = ['Lean 4.33 kernel + Mathlib v4.33 (axioms: propext, Classical.choice,
            'the pose _fixUpsideDown arrives at (mirror geometry + fsolve) is an oracle input of the model; what FK does with it, and the exception fallback of _FKRaphson, are modelled',
            'solver outputs are oracle inputs of the state machine (how SPFKinSpaceR finds them is the subject of C09)']
 ASSUMPTIONS = ['geometries of C09; histories of length <= 25', 'coherence to 1e-9, constraints to the library margins (1e-4 on plate tilt)']
-RULE = ('random histories over {IK in/out of workspace (far, tilted, below, short), FK in/out of range with both solvers, reverse FK, move, spinCustom, validate (with and without corrective action), '
+RULE = ('random histories over {IK in/out of workspace (far, tilted, below, short), FK in/out of range with both solvers, reverse FK, FK over a bottom pose given by the caller, move, spinCustom, validate (with and without corrective action), '
         'inverseJacobian, staticForces, carryMassCalc, randomPos, switching validation settings and solver}; distinct = distinct (geometry, history); non-trivial = at least one corrective action or solver call')
 SAMPLED = []
 
-OPS = ['ik_in', 'ik_in', 'ik_out', 'ik_out', 'fk_in', 'fk_out', 'fk_rev', 'move', 'spin', 'validate', 'validate_dn', 'invjac', 'static', 'carry',
+OPS = ['ik_in', 'ik_in', 'ik_out', 'ik_out', 'fk_in', 'fk_out', 'fk_rev', 'fk_at', 'move', 'spin', 'validate', 'validate_dn', 'invjac', 'static', 'carry',
        'randompos', 'switches', 'mode']
 
 
@@ -223,6 +224,18 @@ def history(rnd, tm, Wrench, rec, nmax):
                         label = op + ':protect'
                         verdict_checked = False
                     enc = [2.0] + list(L) + [1.0 if op == 'fk_rev' else 0.0, 1.0 if prot else 0.0]
+                elif op == 'fk_at':
+                    # forward kinematics over a bottom plate pose GIVEN BY THE CALLER (usually not the one the platform holds)
+                    L = sph.lengths_ref(*sph.local_joints(sp), np.eye(4), sph.T6(sph.rel_pose(rnd, h))) if rnd.random() < 0.6 else \
+                        np.array([rnd.uniform(sp.leg_ext_min * 1.02, sp.leg_ext_max * 0.98) for _ in range(6)])
+                    B = Tb0.copy() if rnd.random() < 0.2 else tm([rnd.uniform(-2, 2) for _ in range(3)] + [rnd.uniform(-1, 1) for _ in range(3)]).gTM().copy()
+                    rev = rnd.random() < 0.2
+                    prot = rnd.random() < 0.15
+                    _, verdict = sp.FK(L.copy(), tm(B.copy()), reverse=rev, protect=prot)
+                    if prot:
+                        label = op + ':protect'
+                        verdict_checked = False
+                    enc = [11.0] + list(L) + t16(B) + [1.0 if rev else 0.0, 1.0 if prot else 0.0]
                 elif op == 'move':
                     t = tm([rnd.uniform(-2, 2) for _ in range(3)] + [rnd.uniform(-1, 1) for _ in range(3)])
                     Tm_ = t.gTM().copy()
